@@ -476,6 +476,8 @@ def run(tier, seed):
     pf = probe_fault_tasks()
     par.pmap(work_probe_faults, pf, stats=st, chunk=8)
     par.pmap(work_byte_values, byte_value_tasks(), stats=st, chunk=2)
+    from props import delivery as _DL
+    par.pmap(_DL.work, _DL.tasks(tier), extra=(('names',),), stats=st, chunk=12)
     validated = H.validate_traces(validation_cases(cs, seed, 40 if tier == 'quick' else 200), st)
     return evidence.finish(
         PID, tier, seed, st, t0,
